@@ -12,9 +12,9 @@
    In the any-tail theorems [tail] is ANY list of streams registered after the stream the theorem is about
    (consumers, consumers of consumers, further windows, ... in any number): however many of them step that stream
    in a tick, and whatever they raise, its state is the same -- this is the "one or several consumers" clause. *)
-From Coq Require Import ZArith NArith Bool String List.
+From Coq Require Import ZArith NArith Bool String List Lia.
 Require Import PV.Base.Val PV.Gen.Window PV.Model.Window.
-Require Import PV.Proofs.Window PV.Proofs.WindowSpec PV.Proofs.WindowCount PV.Proofs.WindowState PV.Proofs.WindowMixed.
+Require Import PV.Proofs.Window PV.Proofs.WindowSpec PV.Proofs.WindowCount PV.Proofs.WindowState PV.Proofs.WindowMixed PV.Proofs.WindowTick.
 Import ListNotations.
 Open Scope Z_scope.
 Open Scope list_scope.
@@ -33,6 +33,22 @@ Theorem C11_guard_freezes : forall fuel g i t st j ns,
   nth_error (gnodes st) j = Some ns -> t <= ntime ns ->
   nth_error (gnodes (fst (step fuel g i t st))) j = Some ns.
 Proof. exact step_frozen. Qed.
+
+(* a tick of ANY well-formed program (streams refer to streams registered earlier), started when no stream has
+   reached time t, steps every stream exactly once, in registration order, each seeing the RDD its parent produced
+   in this tick ([direct]: the _step body without the recursion into the parent): several consumers stepping the
+   same stream are unobservable.  When no stream raises, every stream ends the tick with guard time t. *)
+Theorem C11_tick_steps_each_stream_once : forall g t st,
+  well_formed g -> (2 <= length g)%nat -> length (gnodes st) = length g ->
+  (forall j ns, nth_error (gnodes st) j = Some ns -> ntime ns < t) ->
+  tick g t st = direct_nodes g (seq 0 (length g)) t st.
+Proof. exact tick_refines. Qed.
+Theorem C11_tick_all_stepped : forall g t st,
+  well_formed g -> (2 <= length g)%nat -> length (gnodes st) = length g ->
+  (forall j ns, nth_error (gnodes st) j = Some ns -> ntime ns < t) ->
+  snd (tick g t st) = None ->
+  forall j ns, nth_error (gnodes (fst (tick g t st))) j = Some ns -> ntime ns = t.
+Proof. exact tick_all_stepped. Qed.
 
 (* ================= window_spec ================= *)
 
@@ -74,6 +90,19 @@ Theorem C11_window_consumers : forall q w s k, 0 < s -> forall ts, increasing 0 
   run_graph (prog_window q w s k) ts = (final (prog_window q w s k) ts, map (fun _ => None) ts) /\
   glog (final (prog_window q w s k) ts) = window_log q w s k 0 ts.
 Proof. exact window_consumers. Qed.
+
+(* closed form of the windowed stream's RDD after n intervals (what window_log hands to every consumer): None
+   before interval s, afterwards the window of the last emitting interval, the largest multiple of s below n+1 *)
+Theorem C11_window_rdd_closed_form : forall q w s n, 0 < s ->
+  win_rdd_spec q w s n = if Z.of_nat n <? s then RNone else union_data (win_buf q w (last_emission s n)).
+Proof. exact win_rdd_spec_closed. Qed.
+Theorem C11_last_emission_spec : forall s n, 0 < s ->
+  (last_emission s n <= n)%nat /\ Z.of_nat (last_emission s n) mod s = 0 /\
+  Z.of_nat n - Z.of_nat (last_emission s n) < s.
+Proof. exact last_emission_spec. Qed.
+Theorem C11_window_contents : forall q w n,
+  obs_of (union_data (win_buf q w n)) = Some (concat (lastn (Z.to_nat w) (batches q n))).
+Proof. exact obs_window. Qed.
 
 (* ================= countByWindow_spec ================= *)
 (* countByWindow(w, s) = window(w, s) followed by the three transformed streams of count(); stream 4 is the one
@@ -238,3 +267,18 @@ Example state_spec_instance :
   vals 1 [(0, VInt 1)] = [] /\ vals 1 [(0, VInt 2); (1, VInt 4); (1, VInt 3)] <> [] /\
   fold_key u_sum 1 ([(0, VInt 2); (1, VInt 4); (1, VInt 3)] :: [[]]) VNone = VInt 7.
 Proof. vm_compute. repeat split. discriminate. Qed.
+(* the hypotheses of the tick theorems are satisfiable: a window with two consumers and a stateful stream with
+   one, before the first tick *)
+Example tick_theorem_instance :
+  let g := prog_both [[VTup [VInt 0; VInt 1]]] 2 2 u_sum 1 in
+  well_formed g /\ (2 <= length g)%nat /\ length (gnodes (init_state g)) = length g /\
+  (forall j ns, nth_error (gnodes (init_state g)) j = Some ns -> ntime ns < 1) /\
+  snd (tick g 1 (init_state g)) = None.
+Proof.
+  cbv zeta. split; [|split; [|split; [|split]]].
+  - intros j nd H. do 5 (destruct j as [|j]; [inversion H; subst; cbn; lia|]). destruct j; discriminate.
+  - cbn. lia.
+  - reflexivity.
+  - intros j ns H. do 5 (destruct j as [|j]; [inversion H; subst; cbn; reflexivity|]). destruct j; discriminate.
+  - vm_compute. reflexivity.
+Qed.
